@@ -62,10 +62,13 @@ def r1_compare(chk, fx):
         else:
             chk.instance("C03/R1", "compare(%s, %s) => %s" % (e, i, kind), n, loc, holds=True)
     chk.floor("C03/R1 compare abstract cases", len(rows), 6)
-    # scrutinee: evaluated lookup first, installed second
-    ok = "self.map" in scr[0] and "installed.map" in scr[1]
-    chk.instance("C03/R1", "decision is over (self.map.get(name), installed.map.get(name))", n, loc_of(m.get("sp")), holds=ok,
-                 key="C03/R1 compare scrutinee")
+    # the decision is over the two lookups of the *same* name: both HashMap::get calls take the closure's name parameter
+    gets = [c for c in T.calls(T.norm(t["body"])) if T.short(c["fn"], 2) == "HashMap::get"]
+    keys = sorted({T.expr_str(T.peel(c["args"][1])) for c in gets})
+    recvs = sorted(T.expr_str(T.peel(c["args"][0])).replace(" ", "") for c in gets)
+    ok = len(gets) == 2 and len(keys) == 1 and any("self.map" in r for r in recvs) and any("installed.map" in r for r in recvs)
+    chk.instance("C03/R1", "decision is over self.map.get(name) and installed.map.get(name) for one and the same name (%s; key %s)" % (recvs, keys), n,
+                 loc_of(t.get("sp")), holds=ok, key="C03/R1 compare scrutinee")
 
 
 def chain(e):
@@ -79,50 +82,87 @@ def chain(e):
 
 
 def r2_eval(chk, fx):
+    """Candidate::evaluate by abstract interpretation: evaluator Ok(set) => ranges = Some(f(set)); Err => ranges = None — never a default."""
+    from vlib import absint as A
     t = fx.thir_body(EVAL_CAND)
     chk.analysed(t["def"])
-    body = T.user_body(t)
-    lets = [s for s in T.walk(body) if s.get("k") == "LetStmt" and T.pat_str(s["pat"]) == "ranges"]
-    adts = [a for a in T.find(body, "Adt") if a["adt"].endswith("policies::Evaluated")]
-    if len(adts) != 1:
-        raise F.AnchorLost("Candidate::evaluate: Evaluated{..} literal not found")
-    rf = [f for f in adts[0]["fields"] if f["name"] == "ranges"][0]["expr"]
-    src = T.peel(rf)
-    if src.get("k") == "Var" and len(lets) == 1:
-        src = lets[0]["init"]
-    fns, recv = chain(src)
-    short = [T.short(f, 2) for f in fns]
-    chk.extra["ranges_chain"] = short
-    ok = bool(fns) and fns[0].endswith("Result::<T, E>::ok") and all(
-        f.endswith(("Result::<T, E>::ok", "Result::<T, E>::map", "Result::<T, E>::map_err", "RpslEvaluator::evaluate")) for f in fns) \
-        and any(f.endswith("RpslEvaluator::evaluate") for f in fns)
-    chk.instance("C03/R2", "Evaluated.ranges = evaluator.evaluate(..)[.map_err|.map]*.ok()  (chain: %s)" % " <- ".join(short), t["def"],
-                 loc_of(t.get("sp")), holds=ok, key="C03/R2 Candidate::evaluate ranges-chain",
-                 detail="a defaulting combinator (unwrap_or*, or_else(Ok(..)), Default) would turn a failed evaluation into an empty set")
-    # the evaluated expression is the candidate's own
-    ev = [c for c in T.calls(body, "RpslEvaluator::evaluate")]
-    ok = len(ev) == 1 and "self.filter_expr" in T.expr_str(ev[0]["args"][1])
-    chk.instance("C03/R2", "the expression evaluated is the candidate's own filter_expr", t["def"], loc_of(t.get("sp")), holds=ok,
-                 key="C03/R2 Candidate::evaluate evaluated-expr")
+
+    def hook(fn, args, node, interp):
+        if fn.endswith("RpslEvaluator::evaluate"):
+            interp.trace.append(("call", fn, tuple(args), node.get("sp")))
+            return ("sym", "EVALUATED")
+        return None
+    paths = A.Interp(fx, hook=hook, crates=(AGENT, "bgpfu")).explore(EVAL_CAND)
+    seen = {}
+    for p in paths:
+        kv = p.assume.get("variant:«EVALUATED»")
+        ev = p.calls("RpslEvaluator::evaluate")
+        fs = A.fields_of(p.ret)
+        rg = fs.get("ranges")
+        if kv is None or rg is None or p.end == "abort" or len(ev) != 1:
+            seen.setdefault("other", []).append(A.vstr(p.ret)[:160] + " / " + p.end)
+            continue
+        if kv == "Ok":
+            good = A.is_opt(rg) and rg[2] == "Some" and A.mentions(rg, lambda x: x == ("payload", ("sym", "EVALUATED"), "Ok", "0")) \
+                and not A.mentions(rg, lambda x: x[0] == "term" and T.short(x[1], 2) == "Default::default")
+        else:
+            good = rg == A.NONE
+        seen.setdefault(kv, []).append((good, A.vstr(rg)[:160]))
+        # the evaluated expression is the candidate's own
+        arg = ev[0][2][1] if len(ev[0][2]) > 1 else None
+        own = arg is not None and A.vstr(arg).endswith(".filter_expr") and "self" in A.vstr(arg)
+        seen.setdefault("own", []).append(own)
+        seen.setdefault("fe", []).append(A.vstr(fs.get("filter_expr", ("unit",))).endswith(".filter_expr"))
+    ok = not seen.get("other") and seen.get("Ok") and seen.get("Err") and all(g for g, _ in seen["Ok"]) and all(g for g, _ in seen["Err"])
+    chk.extra["ranges_by_case"] = {k: v for k, v in seen.items() if k in ("Ok", "Err", "other")}
+    chk.instance("C03/R2", "Evaluated.ranges = Some(f(set)) iff the evaluator returned Ok(set), None iff it returned Err — on every path (%s)" % (
+        {k: [x[1] if isinstance(x, tuple) else x for x in v][:2] for k, v in seen.items() if k in ("Ok", "Err", "other")}), t["def"],
+        loc_of(t.get("sp")), holds=bool(ok), key="C03/R2 Candidate::evaluate ranges-chain",
+        detail="a defaulting combinator (unwrap_or*, or_else(Ok(..)), Default) would turn a failed evaluation into an empty set")
+    chk.instance("C03/R2", "the expression evaluated is the candidate's own filter_expr (and it is kept in the result)", t["def"], loc_of(t.get("sp")),
+                 holds=bool(seen.get("own")) and all(seen["own"]) and all(seen.get("fe", [False])), key="C03/R2 Candidate::evaluate evaluated-expr")
     it = fx.fn_item(EVAL_CAND)
     chk.instance("C03/R2", "Candidate::evaluate returns a plain Evaluated (errors cannot escape as Err)", it["def"], loc_of(it.get("sp")),
                  holds=it["output"].endswith("policies::Evaluated"), key="C03/R2 Candidate::evaluate signature")
-    # Policies::evaluate: one-to-one
+    # Policies::evaluate: one-to-one — every (name, candidate) of self.map is mapped to (name, candidate.evaluate(..)), nothing filtered
     t2 = fx.thir_body(EVAL_POL)
-    body2 = T.user_body(t2)
-    lets = [s for s in T.walk(body2) if s.get("k") == "LetStmt" and T.pat_str(s["pat"]) == "map"]
-    if len(lets) != 1:
-        raise F.AnchorLost("Policies::evaluate: `let map` not found")
-    fns, recv = chain(lets[0]["init"])
-    short = [T.short(f, 2) for f in fns]
-    ok = short == ["Iterator::collect", "Iterator::map", "IntoIterator::into_iter"] and T.expr_str(recv).replace(" ", "") == "self.map"
-    chk.instance("C03/R2", "Policies::evaluate maps every candidate one-to-one (chain: %s)" % " <- ".join(short), t2["def"],
-                 loc_of(t2.get("sp")), holds=ok, key="C03/R2 Policies::evaluate chain")
-    cl = [tt for n2, tt in fx.thir.items() if n2.startswith(EVAL_POL + "::{closure") and (tt.get("sp") or {}).get("m") is None]
-    txt = " ".join(T.expr_str(T.user_body(c)) for c in cl)
-    ok = "Evaluate::evaluate(candidate, " in txt and "(name, evaluated)" in txt
-    chk.instance("C03/R2", "each entry keeps its name and gets its own evaluation result", t2["def"], loc_of(t2.get("sp")), holds=ok,
-                 key="C03/R2 Policies::evaluate closure")
+
+    def hook2(fn, args, node, interp):
+        if fn.endswith("Evaluate::evaluate") or fn == EVAL_CAND:
+            return ("term", "EVAL", (args[0],))
+        return None
+    paths = A.Interp(fx, hook=hook2, crates=(AGENT,)).explore(EVAL_POL)
+    ok, detail = bool(paths), None
+    for p in paths:
+        fs = A.fields_of(p.ret)
+        m = fs.get("map")
+        if p.end == "abort" or m is None:
+            ok, detail = False, "result %s" % A.vstr(p.ret)[:120]
+            continue
+        txt = A.vstr(m)
+        bad = [T.short(x[1], 2) for x in A.walk_value(m) if x[0] == "term" and T.short(x[1], 2) in DROPPING]
+        src = A.mentions(m, lambda x: x[0] == "field" and x[2] == "map" and "self" in A.vstr(x[1]))
+        # the mapping closure: evaluate it on a symbolic entry
+        maps = [x for x in A.walk_value(m) if x[0] == "term" and T.short(x[1], 2) in ("Iterator::map", "Iterator::filter_map", "Iterator::flat_map")]
+        one = len(maps) == 1 and T.short(maps[0][1], 2) == "Iterator::map"
+        entry_ok = False
+        if one:
+            it2 = A.Interp(fx, hook=hook2, crates=(AGENT,))
+            it2.trace, it2.assume, it2._script, it2._pos, it2._taken, it2._alts, it2._sym = [], {}, [], 0, [], [], 0
+            try:
+                r = it2.apply(maps[0][2][1], [("tuple", (("sym", "NAME"), ("sym", "CANDIDATE")))], {"sp": None}, 0)
+                entry_ok = r == ("tuple", (("sym", "NAME"), ("term", "EVAL", (("sym", "CANDIDATE"),)))) and not it2._alts
+            except Exception as ex:  # noqa
+                detail = "closure: %r" % ex
+        if bad or not src or not one or not entry_ok:
+            ok = False
+            detail = detail or "map = %s" % txt[:200]
+    chk.instance("C03/R2", "Policies::evaluate maps every candidate one-to-one: (name, candidate) -> (name, candidate.evaluate(..)), no early exit, nothing dropped",
+                 t2["def"], loc_of(t2.get("sp")), holds=ok, key="C03/R2 Policies::evaluate chain", detail=detail)
+
+
+DROPPING = ("Iterator::filter", "Iterator::take", "Iterator::skip", "Iterator::take_while", "Iterator::skip_while", "Iterator::step_by", "Iterator::nth",
+            "Iterator::map_while", "Iterator::zip", "Iterator::filter_map", "Iterator::scan")
 
 
 def error_classes(pat):
